@@ -13,7 +13,9 @@ Oracle : an independent Python statement of the property on what the implementat
          query answer is recomputed from verified_peers / Peer.addresses / services_per_peer /
          _all_addresses read directly; queries must not change those; removed peers are returned
          by nothing and can be added again; blacklisted identities are never verified; a snapshot
-         loaded into a fresh Network makes exactly the verified peers' addresses walkable.
+         loaded into a fresh Network makes exactly the verified peers' addresses walkable; what the graph
+         remembers per address (introducer, service, new-style) is what an independent reference computed
+         from the history of operations implies, and so are is_new_style and the walkable sets per service.
 """
 from __future__ import annotations
 
@@ -130,6 +132,7 @@ class Impl:
         self.objs = {}        # allocation number -> Peer
         self.num = {}         # id(Peer) -> allocation number
         self.count = 0        # next allocation number
+        self.book = {}        # reference address book computed from the history alone (see ref_step)
         if not _empty:
             n = self.net
             n.reverse_ip_cache_size, n.reverse_intro_cache_size, n.reverse_service_cache_size = caps
@@ -158,7 +161,15 @@ class Impl:
         return n
 
     def apply(self, op):
-        """-> (return value in model terms, op completed with the hint)"""
+        """-> (return value in model terms, op completed with the hint); keeps the reference book in step"""
+        if op[0] in ("add", "disc_addr", "rm_peer", "rm_addr", "load"):
+            before = {_KEYBIN[p.public_key.key_to_bin()] for p in self.net.verified_peers}
+            out = self._apply(op)
+            ref_step(self, op, before)
+            return out
+        return self._apply(op)
+
+    def _apply(self, op):
         n, k = self.net, op[0]
         if k == "add":
             n.add_verified_peer(self.peer(op[1], op[2]))
@@ -216,6 +227,7 @@ class Impl:
         c = Impl(self.caps, self.bl_addr, self.bl_mid, _empty=True)
         n, m = self.net, c.net
         c.count = self.count
+        c.book = dict(self.book)
         for p in self.referenced():
             i = self.pnum(p)
             if i not in c.objs:
@@ -241,6 +253,46 @@ class Impl:
         for s, l in n.reverse_service_lookup.items():
             m.reverse_service_lookup[s] = [mp(p) for p in l]
         return c
+
+
+def ref_step(im, op, verified_before):
+    """The address book as the docstrings of Network describe it, from the history of operations alone:
+    address -> (introducer, service it was discovered through, new-style).  An introduction is recorded
+    for a new address, or when the previous introducer is not verified WHEN THE CALL IS MADE; peers
+    that get verified contribute their own, so far unknown, addresses without introducer; removals and
+    snapshots drop / reset entries.  Only the verified keys before the call, the blacklists and the
+    operation are used - never _all_addresses."""
+    book, k = im.book, op[0]
+
+    def verify(key, am):
+        ads = am_list(am)
+        if key in im.bl_mid or any(a in im.bl_addr for a in ads) or key in verified_before:
+            return
+        if not any(a in book for a in ads):
+            for a in ads:
+                book[a] = (None, None, False)
+    if k == "add":
+        verify(op[1], op[2])
+    elif k == "disc_addr":
+        a = op[3]
+        if a not in im.bl_addr and (a not in book or book[a][0] not in verified_before):
+            book.pop(a, None)
+            book[a] = (op[1], op[4], bool(op[5]))
+        verify(op[1], op[2])
+    elif k == "rm_peer":
+        for a in am_list(op[2]):
+            book.pop(a, None)
+    elif k == "rm_addr":
+        book.pop(op[1], None)
+    elif k == "load":
+        b, i = op[1], 0
+        while i < len(b):
+            n = {1: 7, 3: 19}.get(b[i])
+            if n is None or i + n > len(b):
+                break
+            book[(4 if b[i] == 1 else 6, int.from_bytes(b[i + 1:i + n - 2], "big"), int.from_bytes(b[i + n - 2:i + n], "big"))] = \
+                (None, None, False)
+            i += n
 
 
 def split_records(b):
@@ -549,6 +601,54 @@ def check_state(im, found):
         found("membership/duplicate-key", "two verified Peer objects share a public key")
 
 
+def ref_walkable(im, s, old):
+    """walkable addresses implied by the reference book and the verified peers / services read directly"""
+    auth = Auth(im)
+    if s is None:
+        taken = {a for (_, ads) in auth.verified.values() for a in ads}
+    else:
+        taken = {a for i in auth.peers_for(svc_bytes(s)) for a in auth.verified[i][1]}
+    out = set()
+    for a, (ik, sv, ns) in im.book.items():
+        if addr_py(a) in taken or (s is not None and old and ns):
+            continue
+        if s is None or sv == s or svc_bytes(s) in auth.services.get(keys(ik)[ik - 1].key_to_bin() if ik else b"", ()):
+            out.add(a)
+    return out
+
+
+def check_book(im, found):
+    """what the graph remembers about every address (introducer, service, new-style) must be what the
+    history of operations implies; a difference is turned into the answers that are wrong because of it"""
+    n = im.net
+    actual = {addr_of_py(a): (_KEYBIN[w.introduced_by] if w.introduced_by else None,
+                              svc_of_bytes(w.services) if w.services is not None else None, bool(w.new_style))
+              for a, w in n._all_addresses.items()}
+    if actual == im.book:
+        return
+    for a in sorted(set(actual) | set(im.book)):
+        exp = im.book.get(a, (None, None, False))[2]
+        if bool(n.is_new_style(addr_py(a))) != exp:
+            found("is_new_style/not-what-history-implies", "is_new_style(%s) = %s, the last recorded introduction says %s"
+                  % (a, not exp, exp))
+    svs = {x[1] for x in list(actual.values()) + list(im.book.values()) if x[1] is not None}
+    svs |= {svc_of_bytes(x) for v in n.services_per_peer.values() for x in v}
+    for s in [None] + sorted(svs):
+        for old in ((False,) if s is None else (False, True)):
+            c = im.clone()
+            got = {addr_of_py(x) for x in c.net.get_walkable_addresses(svc_bytes(s) if s is not None else None, old)}
+            exp = ref_walkable(im, s, old)
+            if exp - got:
+                found("get_walkable_addresses/omits-address-implied-by-history",
+                      "walkable(%s,%s) returned %s, the history of introductions implies %s" % (s, old, sorted(got), sorted(exp)))
+            if got - exp:
+                found("get_walkable_addresses/returns-address-not-implied-by-history",
+                      "walkable(%s,%s) returned %s, the history of introductions implies %s" % (s, old, sorted(got), sorted(exp)))
+    diff = sorted(a for a in set(actual) | set(im.book) if actual.get(a) != im.book.get(a))
+    found("address-book/not-what-history-implies", "addresses %s: graph has %s, history implies %s"
+          % (diff, [actual.get(a) for a in diff], [im.book.get(a) for a in diff]))
+
+
 def all_queries(U):
     ks, ads, svs = U
     qs = [("by_key", k) for k in ks] + [("by_addr", a, None) for a in ads] + [("peers_for", s) for s in svs]
@@ -616,6 +716,7 @@ def do_op(im, op, found):
     else:
         r, op2 = im.apply(op)
         check_state(im, found)
+        check_book(im, found)
         for k in gone:
             if any(_KEYBIN[p.public_key.key_to_bin()] == k for p in im.net.verified_peers):
                 found("removed/still-verified", "peer %d is still verified after %s" % (k, op[0]))
@@ -666,15 +767,19 @@ def concretise(im, op):
 
 def expand_chunk(args):
     """worker: expand some frontier states by every operation of the alphabet.
-    -> [(path, h, [(op with hint, hash, state digest)], [(key, what, ops)])]"""
+    -> [(index, path with hints, h, [(op with hint, hash, state digest)], [(key, what, ops)])]"""
     cfg, U, entries, last = args
     alpha = alphabet(U)
     out = []
     swept = set()
-    for path, h in entries:
-        im = Impl(*cfg)
-        for op in path:
-            im.apply(op)
+    for idx, path0 in entries:
+        # replay from scratch and re-derive hints and the chained hash: the state at discovery was a clone,
+        # and a cloned set of peers may iterate (hence pick an owner) in another order than the original
+        im, h, path = Impl(*cfg), 0, []
+        for op in path0:
+            r, op2 = im.apply(op)
+            h = step_hash(im, h, r)
+            path.append(op2)
         fan, viols = [], []
         for op0 in alpha:
             op = concretise(im, op0)
@@ -695,7 +800,7 @@ def expand_chunk(args):
             fan.append((op2, h2, dg))
             for key, what in here:
                 viols.append((key, what, path + [op2]))
-        out.append((path, h, fan, viols))
+        out.append((idx, path, h, fan, viols))
     return out
 
 
@@ -711,13 +816,13 @@ def explore(pool, cfg, U, depth, nworkers=14, model_every=1):
     for d in range(depth):
         last = d == depth - 1
         nchunks = max(1, min(len(frontier), nworkers * 8))
-        chunks = [frontier[i::nchunks] for i in range(nchunks)]
+        indexed = [(i, p) for i, (p, _) in enumerate(frontier)]
+        chunks = [indexed[i::nchunks] for i in range(nchunks)]
         nxt = []
         stats["expanded"].append(len(frontier))
-        keep = {repr(p) for i, (p, _) in enumerate(frontier) if not last or i % model_every == 0}
         for res in pool.imap_unordered(expand_chunk, [(cfg, U, ch, last) for ch in chunks]):
-            for path, h, fan, vs in res:
-                if repr(path) in keep:
+            for idx, path, h, fan, vs in res:
+                if not last or idx % model_every == 0:
                     cases.append((path, [f[0] for f in fan], [f[1] for f in fan]))
                     stats["model_edges"] = stats.get("model_edges", 0) + len(fan)
                 stats["edges"] += len(fan)
@@ -749,8 +854,15 @@ def gen_random_ops(r, U, n, extra_addrs):
     kinds = ["add", "disc_addr", "disc_svc", "rm_peer", "rm_addr", "by_key", "by_addr", "peers_for", "svcs_for",
              "walkable", "intros", "snapshot", "load"]
     weights = [14, 12, 9, 5, 6, 6, 12, 9, 3, 9, 9, 2, 3]
-    for _ in range(n):
+    while len(ops) < n:
         k = r.choices(kinds, weights)[0]
+        if r.random() < 0.03:
+            # an introducer is removed and comes back only through its next introduction of the same address
+            p, x, m = r.choice(ks), r.choice(pool), am()
+            ops.append(("disc_addr", p, m, x, r.choice([None] + svs), r.random() < 0.3))
+            ops.append(("rm_peer", p, None) if r.random() < 0.6 or not am_list(m) else ("rm_addr", am_list(m)[0]))
+            ops.append(("disc_addr", p, r.choice([m, am()]), x, r.choice(svs), r.random() < 0.7))
+            continue
         if k == "add":
             ops.append(("add", r.choice(ks), am()))
         elif k == "disc_addr":
@@ -779,7 +891,7 @@ def gen_random_ops(r, U, n, extra_addrs):
             recs = [pack_addr(r.choice(pool)) for _ in range(r.choice([0, 1, 2, 3]))]
             tail = r.choice([b"", b"", b"\x01\x02\x03", b"\x03" + bytes(9), b"\x07", b"\x00abc", b"\x01" + bytes(5)])
             ops.append(("load", b"".join(recs) + tail))
-    return ops
+    return ops[:n]
 
 
 def run_random_case(args):
@@ -876,39 +988,52 @@ def universe_of(cfg, ops):
     return (sorted(ks), ads, sorted(svs))
 
 
-def replay_case(case, out=None):
-    """-> list of (key, what) the oracle reports for a recorded case (full sweep after every operation)"""
+def replay_case(case, out=None, light=False):
+    """-> list of (key, what) the oracle reports for a recorded case (full sweep after every operation;
+    light: per-operation clauses only, one sweep at the end)"""
     cfg = cfg_from_json(case["cfg"])
     ops = ops_from_json(case["ops"])
     U = universe_of(cfg, ops)
     viol = []
     im = Impl(*cfg)
     fnd = lambda key, what: viol.append((key, what))   # noqa: E731
-    for op0 in ops:
+    for j, op0 in enumerate(ops):
         op = concretise(im, op0)
         r, _, gone = do_op(im, op, fnd)
         if out is not None:
             out.append("%-70s -> %s" % (op, r[1] if len(r) > 1 else ""))
-        sweep(im, U, fnd, gone)
+        if not light or j == len(ops) - 1:
+            sweep(im, U, fnd, gone)
     return viol
 
 
-def shrink(cfg, ops, key):
-    """greedy removal of operations while the oracle still reports `key`"""
+def shrink(cfg, ops, key, budget_s=25.0):
+    """remove chunks of operations (halving the chunk size down to single operations) while the oracle
+    still reports `key`; long histories are replayed with the per-operation clauses only"""
+    light = len(ops) > 80
+    t_end = time.time() + budget_s
+
     def bad(o):
         try:
-            return any(k == key for k, _ in replay_case({"cfg": cfg_json(cfg), "ops": ops_json(o)}))
+            return any(k == key for k, _ in replay_case({"cfg": cfg_json(cfg), "ops": ops_json(o)}, light=light))
         except Exception:   # noqa
             return False
     ops = list(ops)
     if not bad(ops):
         return ops
-    i = len(ops) - 1
-    while i >= 0:
-        cand = ops[:i] + ops[i + 1:]
-        if cand and bad(cand):
-            ops = cand
-        i -= 1
+    chunk = max(1, len(ops) // 2)
+    while chunk >= 1:
+        i = len(ops) - chunk
+        while i >= 0 and time.time() < t_end:
+            cand = ops[:i] + ops[i + chunk:]
+            if cand and bad(cand):
+                ops = cand
+                i = min(i, len(ops)) - chunk
+            else:
+                i -= max(1, chunk // 2) if chunk > 1 else 1
+        if chunk == 1 or time.time() >= t_end:
+            break
+        chunk //= 2
     return ops
 
 
@@ -923,7 +1048,7 @@ def run(ctx):
         per_key[key] = per_key.get(key, 0) + 1
         if per_key[key] > 2:
             return
-        small_ops = shrink(cfg, ops, key) if len(ops) <= 80 else ops
+        small_ops = shrink(cfg, ops, key)
         ctx.violation(key, what, {"cfg": cfg_json(cfg), "ops": ops_json(small_ops), "key": key})
 
     # ---- stage 0: corpus
